@@ -1,0 +1,50 @@
+//go:build verif
+
+package router
+
+import (
+	"net/netip"
+
+	"github.com/mycoria/mycoria/frame"
+	"github.com/mycoria/mycoria/mgr"
+)
+
+// VerifHandleFrame synchronously runs the router frame handler on one frame,
+// with the same panic recovery and error path a router worker has.
+// Verification hook: only compiled with the "verif" build tag.
+func (r *Router) VerifHandleFrame(f frame.Frame) error {
+	return r.mgr.Do("verif", func(w *mgr.WorkerCtx) error {
+		if err := r.handleFrame(w, f); err != nil {
+			f.ReturnToPool()
+			return err
+		}
+		return nil
+	})
+}
+
+// VerifHandleTunPacket synchronously runs the local packet handler on one
+// packet, with the same panic recovery a tun handler worker has.
+// Verification hook: only compiled with the "verif" build tag.
+func (r *Router) VerifHandleTunPacket(packetData []byte) error {
+	return r.mgr.Do("verif", func(w *mgr.WorkerCtx) error {
+		r.handleTunPacket(w, packetData)
+		return nil
+	})
+}
+
+// VerifClean synchronously runs the periodic cleaners of the router.
+// Verification hook: only compiled with the "verif" build tag.
+func (r *Router) VerifClean() error {
+	return r.mgr.Do("verif", func(w *mgr.WorkerCtx) error {
+		r.cleanPingHandlers(w)
+		r.cleanConnStates()
+		return nil
+	})
+}
+
+// VerifHelloPending reports whether a hello ping to the given router is
+// currently active (pending or cooling down).
+// Verification hook: only compiled with the "verif" build tag.
+func (r *Router) VerifHelloPending(ip netip.Addr) bool {
+	return r.HelloPing.getActive(ip) != nil
+}
